@@ -523,6 +523,10 @@ class ContractSet:
                     walk(s.finalbody)
                 elif isinstance(s, (ast.With, ast.AsyncWith)):
                     walk(s.body)
+                elif isinstance(s, ast.Assign) and len(s.targets) == 1 and isinstance(s.targets[0], ast.Name) and isinstance(s.value, ast.ListComp) \
+                        and len(s.value.generators) == 1 and not s.value.generators[0].is_async:
+                    # `xs = [e for t in it if c]` counts as the loop it abbreviates (used when `it` has symbolic length)
+                    order.append(self.desugar_listcomp(s))
         if not isinstance(fnode, ast.Lambda):
             walk(fnode.body)
         for i, s in enumerate(order):
@@ -530,6 +534,28 @@ class ContractSet:
             s._pyvc_all = order
             s._pyvc_fn = fnode
         return order
+
+    @staticmethod
+    def desugar_listcomp(st):
+        loop = getattr(st, "_pyvc_desugared", None)
+        if loop is None:
+            g = st.value.generators[0]
+            name = st.targets[0].id
+            app = ast.Expr(ast.Call(func=ast.Attribute(value=ast.Name(id=name, ctx=ast.Load()), attr="append", ctx=ast.Load()),
+                                    args=[st.value.elt], keywords=[]))
+            body = [app]
+            for cond in reversed(g.ifs):
+                body = [ast.If(test=cond, body=body, orelse=[])]
+            # all conditions nest in the written order: the first `if` is the outermost
+            if len(g.ifs) > 1:
+                body = [app]
+                for cond in reversed(g.ifs):
+                    body = [ast.If(test=cond, body=body, orelse=[])]
+            loop = ast.For(target=g.target, iter=g.iter, body=body, orelse=[])
+            ast.copy_location(loop, st)
+            ast.fix_missing_locations(loop)
+            st._pyvc_desugared = loop
+        return loop
 
     def merged_loops(self, c):
         loops = {}
